@@ -48,13 +48,16 @@ PROPS = {
         ],
     },
     "C01": {
-        "units": ["rpid", "clt"], "kani_complete": [], "kani_bounded_quick": [], "kani_bounded_thorough": [],
+        "units": ["rpid", "clt", "psl"], "kani_complete": [], "kani_bounded_quick": [], "kani_bounded_thorough": [],
         "design_ref": "DESIGN.md section 5 / C01",
         "not_covered": [
             "'a rejected pair never reaches the authenticator / the effective RP ID is the one used' IS decided by unit clt on the "
             "real Client::register / authenticate bodies, over trusted signatures of what they call (assert_domain itself: unit rpid)",
             "Url parsing (origin.domain() / scheme() are assumed accessors); idna::domain_to_ascii is an assumed dependency",
-            "that the default provider computes the registrable domain correctly (C10)",
+            "'registrable domain rather than a public suffix' is decided for a generic provider in unit rpid over the contract on the trait "
+            "EffectiveTLDProvider; that the shipped provider (ListProvider over the compiled table) meets the rule walk of the Public Suffix "
+            "List is unit psl, whose obligations (shared with C10) are part of this check since a seeded change of the rule walk broke C01 "
+            "through it; the link 'Ok exactly for names that are not themselves a public suffix' is C10's clause",
         ],
     },
     "C02": {
